@@ -24,7 +24,7 @@ _REAL = {
     "zeros": numpy.zeros, "ones": numpy.ones, "empty": numpy.empty,
     "zeros_like": numpy.zeros_like, "eye": numpy.eye, "identity": numpy.identity,
     "array": numpy.array, "isclose": numpy.isclose, "allclose": numpy.allclose,
-    "max": numpy.max, "min": numpy.min, "linspace": numpy.linspace,
+    "max": numpy.max, "min": numpy.min, "amax": numpy.amax, "amin": numpy.amin, "linspace": numpy.linspace,
     "isreal": numpy.isreal, "eigh": numpy.linalg.eigh, "inv": numpy.linalg.inv,
     "scipy_inv": scipy.linalg.inv, "fft": numpy.fft.fft, "ifft": numpy.fft.ifft,
     "hfft": numpy.fft.hfft,
@@ -259,7 +259,8 @@ def p_eigh(A, *args, **kw):
     if A.dtype != object:
         return _REAL["eigh"](A, *args, **kw)
     if _all_concrete(A) and EIGH_HANDLER[0] is None:
-        w, S = _REAL["eigh"](to_float(A))
+        with unpatched():
+            w, S = _REAL["eigh"](to_float(A))
         return w, S
     if EIGH_HANDLER[0] is None:
         raise core.SymbolicConcretization("eigh of symbolic matrix without a stub handler")
@@ -274,7 +275,8 @@ def p_inv(S, *args, **kw):
     if S1 is not None:
         return S1.copy()
     if _all_concrete(S):
-        return core.to_obj(_REAL["inv"](to_float(S)))
+        with unpatched():
+            return core.to_obj(_REAL["inv"](to_float(S)))
     n = S.shape[0]
     if n == 2:
         # exact adjugate formula; obligation det != 0 recorded by the division
@@ -322,6 +324,28 @@ def _build_patches():
         (numpy.fft, "hfft", fftstub.p_hfft),
         (scipy.interpolate, "UnivariateSpline", splinestub.UnivariateSplineStub),
     ]
+
+
+@contextlib.contextmanager
+def unpatched():
+    """temporarily restore the real numpy inside a symbolic_numpy() context
+    (used to build concrete quantarhei objects with benign numbers)"""
+    if not ENGINE.active:
+        yield
+        return
+    cur = [(mod, name, getattr(mod, name)) for mod, name, fn in PATCHES]
+    cur.append((numpy, "pi", numpy.pi))
+    for mod, name, fn in PATCHES:
+        key = "scipy_inv" if (mod is scipy.linalg and name == "inv") else name
+        setattr(mod, name, _REAL[key])
+    numpy.pi = PI_FLOAT
+    ENGINE.active = False
+    try:
+        yield
+    finally:
+        for mod, name, fn in cur:
+            setattr(mod, name, fn)
+        ENGINE.active = True
 
 
 @contextlib.contextmanager
